@@ -109,12 +109,15 @@ func (server *Server) Start() error {
 	verifPoint("start.opened", nil)
 
 	// Each accept loop gets the listener it serves, so that it never touches a listener opened by a later Start.
+	// Connections accepted by these loops belong to the current epoch of the connection manager.
+	epoch := server.ConnManager.Epoch()
+
 	if server.IsPortEnabled() {
-		go server.serve(server.portListener)
+		go server.serve(server.portListener, epoch)
 	}
 
 	if server.IsTLSPortEnabled() {
-		go server.tlsServe(server.tlsPortListener, server.tlsConfig)
+		go server.tlsServe(server.tlsPortListener, server.tlsConfig, epoch)
 	}
 
 	return nil
@@ -210,7 +213,7 @@ func (server *Server) close() error {
 }
 
 // serve handles client connections.
-func (server *Server) serve(l net.Listener) error {
+func (server *Server) serve(l net.Listener, epoch int) error {
 	defer verifPoint("serve.exit", nil)
 	if l == nil {
 		return nil
@@ -226,12 +229,12 @@ func (server *Server) serve(l net.Listener) error {
 			return err
 		}
 
-		go server.receive(conn, nil)
+		go server.receive(conn, nil, epoch)
 	}
 }
 
 // tlsServe handles client connections with TLS.
-func (server *Server) tlsServe(l net.Listener, tlsConfig *tls.Config) error {
+func (server *Server) tlsServe(l net.Listener, tlsConfig *tls.Config, epoch int) error {
 	defer verifPoint("tlsserve.exit", nil)
 	if l == nil {
 		return nil
@@ -256,12 +259,12 @@ func (server *Server) tlsServe(l net.Listener, tlsConfig *tls.Config) error {
 		verifPoint("tls.handshake.end", nil)
 		tlsState := tlsConn.ConnectionState()
 
-		go server.receive(tlsConn, &tlsState)
+		go server.receive(tlsConn, &tlsState, epoch)
 	}
 }
 
 // receive handles a client connection.
-func (server *Server) receive(conn net.Conn, tlsState *tls.ConnectionState) error {
+func (server *Server) receive(conn net.Conn, tlsState *tls.ConnectionState, epoch int) error {
 	_, isPasswdRequired := server.ConfigRequirePass()
 
 	handlerConn := newConnWith(conn, tlsState)
@@ -283,7 +286,10 @@ func (server *Server) receive(conn net.Conn, tlsState *tls.ConnectionState) erro
 	}
 
 	verifPoint("recv.before-register", handlerConn)
-	server.AddConn(handlerConn)
+	if !server.AddConnInEpoch(handlerConn, epoch) {
+		// The server was stopped after this connection had been accepted.
+		return handlerConn.Close()
+	}
 	verifPoint("recv.registered", handlerConn)
 	defer func() {
 		server.RemoveConn(handlerConn)
